@@ -19,6 +19,21 @@ sys.path.insert(0, os.path.dirname(HERE))
 from sim.core import Violation, derive_seed, jdump, make_rng, shape_hash  # noqa: E402
 
 
+def enable_compile_cache() -> None:
+    d = os.environ.get("VERIF_JAX_CACHE")
+    if not d:
+        return
+    try:
+        import jax
+
+        os.makedirs(d, exist_ok=True)
+        jax.config.update("jax_compilation_cache_dir", d)
+        jax.config.update("jax_persistent_cache_min_compile_time_secs", 0)
+        jax.config.update("jax_persistent_cache_min_entry_size_bytes", -1)
+    except Exception:
+        pass
+
+
 def load_engine(name: str):
     return importlib.import_module(f"sim.engines.{name}")
 
@@ -51,10 +66,11 @@ def main() -> int:
     master = int(job["seed"])
     prop = job["property"]
     t_start = time.time()
-    result = {"worker": widx, "batches": [], "harness_errors": [], "violations": []}
+    result = {"worker": widx, "batches": [], "harness_errors": [], "violations": [], "other": []}
     ctxs: dict = {}
     max_viol = int(job.get("max_violations_per_worker", 2))
     try:
+        enable_compile_cache()
         for b_i, batch in enumerate(job["batches"]):
             engine = load_engine(batch["engine"])
             ctx = ctxs.get(batch["engine"])
@@ -110,9 +126,12 @@ def main() -> int:
                     agg["digests"][str(i)] = out.get("digest")
                 if len(agg["samples"]) < 2 and out.get("nontrivial"):
                     agg["samples"].append({"seed": seed, "plan": plan, "trace_head": out.get("trace_head", [])[:40]})
-                v = first_violation(out)
-                if v is not None:
-                    rec = handle_violation(engine, plan, ctx, out, v, prop, job)
+                mine = [v for v in (out.get("violations") or []) if v["property"] == prop]
+                for v in (out.get("violations") or []):
+                    if v["property"] != prop and len(result["other"]) < 20:
+                        result["other"].append({"property": v["property"], "clause": v["clause"], "site": v.get("site", ""), "seed": seed})
+                if mine:
+                    rec = handle_violation(engine, plan, ctx, out, mine[0], prop, job)
                     result["violations"].append(rec)
                     if len(result["violations"]) >= max_viol:
                         agg["truncated"] = True
